@@ -403,6 +403,7 @@ void scen_semaphore(Ctx &x) {
   x.W1();
   x.drop_err();
   if (b) p_semaphore_free(b);
+  x.ok(vi::exists(vi::sem_file(name)), "damage", "the name of the existing semaphore was removed from the system by a second open (failed or not) that never owned it");
   x.ok(p_semaphore_acquire(a, NULL) && p_semaphore_acquire(a, NULL), "damage", "existing semaphore lost units after a failed open");
   x.ok(p_semaphore_release(a, NULL) && p_semaphore_release(a, NULL), "damage", "existing semaphore unusable");
   p_semaphore_take_ownership(a);
@@ -429,6 +430,7 @@ void scen_shm(Ctx &x) {
   x.W1();
   x.drop_err();
   if (b) p_shm_free(b);
+  x.ok(vi::exists(vi::shm_file(name)) && vi::exists(vi::shm_lock_file(name)), "damage", "the names of the existing segment or of its lock were removed from the system by a second open (failed or not) that never owned them");
   x.ok(((unsigned char *)p_shm_get_address(a))[511] == 0x42 && p_shm_lock(a, NULL) && p_shm_unlock(a, NULL), "damage", "existing shm damaged by a failed second open");
   p_shm_take_ownership(a);
   p_shm_free(a);
@@ -445,6 +447,24 @@ void scen_shmbuffer(Ctx &x) {
     p_shm_buffer_take_ownership(b);
     p_shm_buffer_free(b);
   }
+  // an existing buffer with unread bytes must survive a second open of its name, failed or not: still shared under its name, bytes intact
+  PShmBuffer *a = p_shm_buffer_new(name.c_str(), 100, NULL);
+  if (!x.ok(a != NULL, "setup", "shm buffer setup failed")) return;
+  x.ok(p_shm_buffer_write(a, (ppointer)"token-1", 7, NULL) == 7, "setup", "shm buffer setup write failed");
+  x.W0();
+  PShmBuffer *b2 = p_shm_buffer_new(name.c_str(), 100, x.E());
+  x.W1();
+  x.drop_err();
+  if (b2) p_shm_buffer_free(b2);
+  x.ok(vi::exists(vi::shm_file(name)) && vi::exists(vi::shm_lock_file(name)), "damage", "the names of the existing buffer's segment or lock were removed from the system by a second p_shm_buffer_new (failed or not) that never owned them");
+  PShmBuffer *c3 = p_shm_buffer_new(name.c_str(), 100, NULL);
+  if (c3) {
+    char got[16] = {0}; pint n = p_shm_buffer_read(c3, got, 7, NULL);
+    x.ok(n == 7 && !memcmp(got, "token-1", 7), "damage", "a fresh handle on the name no longer sees the bytes queued in the existing buffer (the failed open detached the name from it)");
+    p_shm_buffer_free(c3);
+  } else x.ok(false, "damage", "the existing buffer's name can no longer be opened after a failed second open");
+  p_shm_buffer_take_ownership(a);
+  p_shm_buffer_free(a);
 }
 
 int raw_listener(int &port) {
